@@ -168,6 +168,7 @@ def run_case(rs, ctx):
         # a never-fitted bandit may be trained by fit or - equally legal - by a first partial_fit
         cont = gen.gen_ops(rs, cfg, sh2, 1, [gen.pick(rs, ["fit", "partial_fit"])], train_rows=(5, 12)) + \
             gen.gen_continuation(rs, cfg, sh2)
+    cont = [{"op": "cold_arms"}] + cont  # the trained / warm status of every arm is part of 'exactly as it was'
     if gen.is_ctx(cfg) and sh.fitted:
         # probes in the container whose reading depends on what the bandit believes its feature count to be
         rowp = gen.gen_contexts(rs, 1 if sh.nf > 1 else 3, sh.nf)
